@@ -1,0 +1,36 @@
+// Copyright (c) 2019 Meng Huang (mhboy@outlook.com)
+// This package is licensed under a MIT license that can be found in the LICENSE file.
+
+package rpc
+
+import "errors"
+
+// errHeader is returned when a header is truncated or inconsistent.
+var errHeader = errors.New("rpc: header is truncated or inconsistent")
+
+// checkVarint reports whether data starts with a complete varint, as the
+// decoders of package code read it (at most ten bytes).
+func checkVarint(data []byte) bool {
+	for i := 0; i < len(data) && i < 10; i++ {
+		if data[i] < 0x80 {
+			return true
+		}
+	}
+	return len(data) >= 10
+}
+
+// checkBytes reports whether data starts with a complete length-prefixed
+// field: a varint length followed by that many bytes.
+func checkBytes(data []byte) bool {
+	var length uint64
+	var n int
+	for n < len(data) && n < 10 {
+		b := data[n]
+		length |= uint64(b&0x7f) << (7 * uint(n))
+		n++
+		if b < 0x80 || n == 10 {
+			return length <= uint64(len(data)-n)
+		}
+	}
+	return false
+}
